@@ -1155,7 +1155,8 @@ def provenance_tag(project, site, callee_qual, recv_classes, under_try, caller_c
             if lt:
                 return lt
     # 4. the function value
-    if kind in VALUE_KINDS or kind.startswith(("callback-keyword-argument", "callback-with-two-candidate-values")):
+    if kind in VALUE_KINDS or kind.startswith(("callback-keyword-argument", "callback-with-two-candidate-values",
+                                              "call-through-parameter-of-one-of-two-targets")):
         vref = project.get("value_access", {}).get(callee_qual)
         t = _ref_tag(project, vref, "function-value")
         if t and vref.get("form") == "module-attribute" and not _interference(project, vref):
